@@ -47,6 +47,37 @@ func vTranspile(src string) (res string, err string) {
 	return RootStmtsToGo(stmts), ""
 }
 
+var vFoiSrc string
+
+// transpile with pkg/pkg_all.foi loaded first (as `fc pkg_all.foi file.fo` does)
+func vTranspilePkg(src string) (res string, err string) {
+	defer func() {
+		if r := recover(); r != nil {
+			err = fmt.Sprint(r)
+			if err == "" {
+				err = "panic"
+			}
+		}
+	}()
+	if vFoiSrc == "" {
+		repo := os.Getenv("FC_VERIF_REPO")
+		if repo == "" {
+			repo = "/repo"
+		}
+		b, e := os.ReadFile(repo + "/pkg/pkg_all.foi")
+		if e != nil {
+			return "", "cannot read pkg_all.foi"
+		}
+		vFoiSrc = string(b)
+	}
+	resetUniqueTmpCounter()
+	ps := initParse(vFoiSrc)
+	ps2, _ := parseAll(ps)
+	ps3 := psSetNewSrc(src, ps2)
+	_, stmts := parseAll(ps3)
+	return RootStmtsToGo(stmts), ""
+}
+
 func init() {
 	mode := os.Getenv("FC_VERIF")
 	if mode == "" {
@@ -75,6 +106,16 @@ func init() {
 		vC11(seed, count, extra)
 	case "tok":
 		vTok(seed, count, extra)
+	case "gentry":
+		vGenTry(seed, count, extra)
+	case "c01":
+		vC01(seed, count, extra)
+	case "runsrc":
+		vRunSrc(extra[0], extra[1:])
+	case "c06":
+		vC06(seed, count, extra)
+	case "tsrc":
+		vTSrc(extra)
 	case "transpile-stdin":
 		// one hex-encoded source per line -> "ok <hex go>" | "err <hex msg>"
 		sc := bufio.NewScanner(os.Stdin)
